@@ -451,6 +451,7 @@ func (c *Ctx) isMembershipFn(f *ssa.Function) (bool, []string) {
 		}
 	}
 	listP, elemP := c.Path(f.Params[li], nil), c.Path(f.Params[ei], nil)
+	partial := false
 	chk := &GCheck{Name: "element == wanted", NoDescend: true, MatchCmp: func(c *Ctx, b *ssa.BinOp, env Env) (bool, bool) {
 		if b.Op != token.EQL && b.Op != token.NEQ {
 			return false, false
@@ -459,11 +460,34 @@ func (c *Ctx) isMembershipFn(f *ssa.Function) (bool, []string) {
 		isElem := func(s string) bool { return strings.HasPrefix(s, listP+"[") || strings.Contains(s, "("+listP+"[") }
 		isWanted := func(s string) bool { return s == elemP || strings.HasSuffix(s, "("+elemP+")") }
 		if (isElem(l) && isWanted(r)) || (isElem(r) && isWanted(l)) {
+			// the element compared: its index must run over the whole list (every element is looked at — a search that
+			// starts at 1 or stops before 0 answers "not a member" for the element it skips)
+			for _, side := range []ssa.Value{b.X, b.Y} {
+				v := side
+				for d := 0; d < 3; d++ {
+					switch y := v.(type) {
+					case *ssa.Convert:
+						v = y.X
+					case *ssa.ChangeType:
+						v = y.X
+					}
+				}
+				if ld, isLd := v.(*ssa.UnOp); isLd && ld.Op == token.MUL {
+					if ia, isIA := ld.X.(*ssa.IndexAddr); isIA && ia.X == ssa.Value(f.Params[li]) {
+						if !ascendingFromZero(ia) && !c.descendingToZero(ia) {
+							partial = true
+						}
+					}
+				}
+			}
 			return true, b.Op == token.EQL
 		}
 		return false, false
 	}}
 	ok, w, _ := c.Guard(f, nil, chk, nil)
+	if partial {
+		return false, []string{"the search does not look at every element of the list"}
+	}
 	return ok, w
 }
 
